@@ -76,6 +76,13 @@ class RecTracer(Tracer):
     def __bool__(self):
         return self.idx % 2 == 0
 
+    # tracers configured alike compare equal (value semantics, as a frozen dataclass would give them); they are distinct tracers
+    def __eq__(self, other):
+        return isinstance(other, RecTracer) and other.log is self.log
+
+    def __hash__(self):
+        return 19
+
     def on_request_begin(self, trace_context, request):
         self.log.append(('begin', self.idx, trace_context))
 
